@@ -297,25 +297,45 @@ def _slug(s: str) -> str:
 
 
 # ---- sharded execution -----------------------------------------------------------------
-def run_optimized_pass(prop: str, tier: str, seed: int, timeout: float):
-    """The same check once more in an interpreter started with -O (assert statements stripped, __debug__ false), on a slice of the
-    workload: returns (partial dict | None, failure reason | None)."""
+# Alternative interpreter configurations: the same check once more, on a slice of its workload, in a process that differs
+# from the default one in things no property may depend on.
+ALT_PASSES = [
+    # assert statements stripped, __debug__ false
+    ("python -O", ["-O"], {}, False),
+    # every warning is an error; variables that notebook / publishing front ends set are present; another working directory
+    ("warnings as errors, front-end environment variables, other working directory", ["-W", "error"],
+     {"PYTHONWARNINGS": "error", "QUARTO_PROJECT_ROOT": "/quarto/project", "QUARTO_DOCUMENT_PATH": "/quarto/project/doc.qmd", "QUARTO_BIN_PATH": "/opt/quarto/bin",
+      "RSTUDIO": "1", "RSTUDIO_PANDOC": "/usr/lib/rstudio/bin/pandoc", "JPY_PARENT_PID": "4242", "JUPYTERHUB_USER": "someone", "VSCODE_PID": "77", "SHINY_PORT": "3838",
+      "SHINY_HOST": "0.0.0.0", "PYODIDE": "", "CI": "true", "GITHUB_ACTIONS": "true", "NO_COLOR": "1", "TERM": "dumb", "TZ": "Pacific/Kiritimati", "COLUMNS": "20", "DEBUG": "1",
+      "HTMLTOOLS_DEBUG": "1", "BROWSER": "none", "SOURCE_DATE_EPOCH": "0"}, True),
+]
+
+
+def run_alt_pass(which: int, prop: str, tier: str, seed: int, timeout: float):
+    """returns (label, partial dict | None, failure reason | None)."""
     import tempfile
 
-    tmpdir = tempfile.mkdtemp(prefix=f"hv-{prop}-opt-")
+    label, flags, extra_env, other_cwd = ALT_PASSES[which]
+    tmpdir = tempfile.mkdtemp(prefix=f"hv-{prop}-alt-")
     part = os.path.join(tmpdir, "part.json")
     env = dict(os.environ, PYTHONDONTWRITEBYTECODE="1", HV_OPT_CHILD="1")
     env.setdefault("PYTHONHASHSEED", "0")
     env.pop("PYTHONOPTIMIZE", None)
-    cmd = [sys.executable, "-O", "-m", "hv", "check", prop, "--tier", "quick", "--seed", str(seed), "--shard", "0/8" if tier == "quick" else "0/2", "--partial", part]
+    env.update(extra_env)
+    cwd = VERIF
+    if other_cwd:
+        cwd = os.path.join(tmpdir, "some other", "working dir")
+        os.makedirs(cwd)
+        env["PYTHONPATH"] = VERIF + (os.pathsep + env["PYTHONPATH"] if env.get("PYTHONPATH") else "")
+    cmd = [sys.executable] + flags + ["-m", "hv", "check", prop, "--tier", "quick", "--seed", str(seed), "--shard", "0/8" if tier == "quick" else "0/2", "--partial", part]
     try:
-        p = subprocess.run(cmd, cwd=VERIF, env=env, stdout=subprocess.PIPE, stderr=subprocess.STDOUT, text=True, timeout=timeout)
+        p = subprocess.run(cmd, cwd=cwd, env=env, stdout=subprocess.PIPE, stderr=subprocess.STDOUT, text=True, timeout=timeout)
         if p.returncode != 0 or not os.path.exists(part):
-            return None, f"the pass under python -O crashed (exit {p.returncode}): {p.stdout[-1500:]}"
+            return label, None, f"the pass '{label}' crashed (exit {p.returncode}): {p.stdout[-1500:]}"
         with open(part) as f:
-            return json.load(f), None
+            return label, json.load(f), None
     except subprocess.TimeoutExpired:
-        return None, "watchdog: the pass under python -O exceeded the wall-clock limit"
+        return label, None, f"watchdog: the pass '{label}' exceeded the wall-clock limit"
     finally:
         import shutil
 
